@@ -27,6 +27,7 @@ ANCHORS = [
     "mapping_service/api.py:get_flask_mapping_blueprint", "mapping_service/api.py:get_fastapi_router",
     "mapping_service/api.py:get_flask_mapping_blueprint.<locals>.serve_sparql",
     "mapping_service/api.py:get_fastapi_router.<locals>.resolve_get",
+    "mapping_service/api.py:get_fastapi_router.<locals>.resolve_post",
 ]
 DECIDING = ["mapping:graph", "mapping:web", "mapping:content-type", "handle_header"]
 REPO_TESTS = True
@@ -35,7 +36,7 @@ RULE = (
     "prefixes), optionally with configured predicates. (a) MappingServiceGraph.query through the custom processor: ?s "
     "bound or ?o bound, VALUES inside or after WHERE, configured and foreign predicates, 1-3 recognised and unrecognised "
     "URIs; bindings compared, as a multiset (single predicate) or set (several), with the model's expand_all(compress(u)). "
-    "(b) the same queries through Flask GET and POST and FastAPI GET, response bodies parsed by harness-own JSON / XML / "
+    "(b) the same queries through Flask GET and POST and FastAPI GET and POST, response bodies parsed by harness-own JSON / XML / "
     "CSV readers; all legs must equal the model. (c) content negotiation: generated RFC 7231 Accept headers (supported, "
     "synonym and unsupported media types, q-values, optional whitespace around ',' and ';') given to handle_header "
     "(monitored against an independent Accept parser; any of the tied best types is accepted) and sent with the web "
@@ -45,7 +46,7 @@ RULE = (
     "URI prefixes, or the header contains whitespace or a q-value."
 )
 ASSUMPTIONS = [
-    "python-multipart is absent in this sandbox: FastAPI's import check is satisfied with an empty stand-in module and the FastAPI POST leg is not exercised (GET never touches it)",
+    "python-multipart is absent in this sandbox: the FastAPI POST leg parses its urlencoded body through a harness stand-in for that package's QuerystringParser (rtmon/standin_multipart.py, trusted base of that leg only; the real package is used when importable)",
     "q=0, wildcards, media-type parameters and repeated media types are outside the header grammar the property defines",
     "IRI validity restated: none of <>\" {}|\\^` and no control characters",
 ]
@@ -108,16 +109,10 @@ def parse_body(ctype, text):
 def setup(ctx):
     import logging
 
-    logging.disable(logging.CRITICAL)
-    try:
-        import python_multipart  # noqa: F401
+    from .. import standin_multipart
 
-        ctx.real_multipart = True
-    except ImportError:
-        m = types.ModuleType("python_multipart")
-        m.__version__ = "0.0.20"
-        sys.modules["python_multipart"] = m
-        ctx.real_multipart = False
+    logging.disable(logging.CRITICAL)
+    ctx.real_multipart = standin_multipart.install()
 
 
 def run_case(ctx, g, rng):
@@ -213,8 +208,7 @@ def run_case(ctx, g, rng):
                 ("flask-post", lambda: fl.post("/sparql", data={"query": q}, headers={"accept": header})),
                 ("fastapi-get", lambda: fa.get("/sparql", params={"query": q}, headers={"accept": header})),
             ]
-            if ctx.real_multipart:
-                legs.append(("fastapi-post", lambda: fa.post("/sparql", data={"query": q}, headers={"accept": header})))
+            legs.append(("fastapi-post", lambda: fa.post("/sparql", data={"query": q}, headers={"accept": header})))
             for leg, f in legs:
                 o = call(f)
                 S.counters[f"wl:web:{leg}"] += 1
